@@ -15,18 +15,20 @@ Local Open Scope N_scope.
    the compiler emits for P succeeds at every stage; the source API and the client API list exactly
    the declared services and methods with the declared verb and path; request properties are split
    by fill_request (C16_request_partition says what that split is); the referenced schemas are
-   exactly the schemas reachable from the methods; the OpenAPI conversion succeeds.
-   Outside this statement (see the partial list in pylib/propcfg/C16.py): list methods (their walk is
-   C16_list_walk_terminates, not composed here), topics (C16_service_suffixes only), entities. *)
+   exactly the schemas reachable from the methods; list methods (a j5.list.v1.QueryRequest in the
+   request, one array of object references in the response) get the paths walked over their item
+   object, recursive or not; the OpenAPI conversion succeeds.
+   Outside this statement (see the partial list in pylib/propcfg/C16.py): topics (C16_service_suffixes
+   only), entities. *)
 Definition C16_full_statement : Prop :=
   forall (to_snake : str -> str) (P : decl_package), valid_package to_snake P ->
     let r := run_chain current_config (compile_image to_snake P) in
     exists ks,
       cr_source r = Ok (declared_api P)
-      /\ cr_client r = Ok (declared_clients P, ks)
+      /\ cr_client r = Ok (declared_clients to_snake P, ks)
       /\ (forall x, In x ks <->
             present (image_env to_snake P) x /\
-            exists k, In k (flat_map method_roots (declared_clients P))
+            exists k, In k (flat_map method_roots (declared_clients to_snake P))
                       /\ present (image_env to_snake P) k
                       /\ reach (image_env to_snake P) k x)
       /\ cr_swagger r = Ok tt.
@@ -252,7 +254,7 @@ Proof.
   - split.
     { cbn [map df_name]. apply NoDup_cons; [|apply NoDup_cons; [intros []|apply NoDup_nil]].
       intros [H|[]]. vm_compute in H. discriminate. }
-    split; [apply Forall_cons; [vm_compute; reflexivity|apply Forall_cons; [vm_compute; reflexivity|apply Forall_nil]]|].
+    split; [apply Forall_cons; [intro E; vm_compute in E; discriminate|apply Forall_cons; [intro E; vm_compute in E; discriminate|apply Forall_nil]]|].
     split; [vm_compute; reflexivity|].
     split.
     { unfold wf_env. apply Forall_forall. intros ks Hks. vm_compute in Hks.
@@ -260,6 +262,26 @@ Proof.
       contradiction. }
     intros k [<-|[]]. vm_compute. discriminate.
 Qed.
+
+(* a list method over a self-recursive item object: the chain succeeds and the list request carries
+   the walked paths (flag, next) — the walk stops at the recursive reference *)
+Definition ex_list_pkg : decl_package :=
+  let node := (bytes_of "p.v1", bytes_of "Node") in
+  let qr := (bytes_of "j5.list.v1", bytes_of "QueryRequest") in
+  {| dp_pkg := bytes_of "p.v1";
+     dp_services := [(bytes_of "Tree",
+        [{| df_name := bytes_of "ListNodes"; df_verb := GET; df_parts := [[]; bytes_of "nodes"];
+            df_req := [{| p_json := bytes_of "query"; p_ty := TRef "object" qr |}];
+            df_resp := Some [{| p_json := bytes_of "nodes"; p_ty := TArray (TRef "object" node) |}] |}])];
+     dp_schemas := [(node, SObject [{| p_json := bytes_of "flag"; p_ty := TScalar "bool" |};
+                                    {| p_json := bytes_of "next"; p_ty := TRef "object" node |}]);
+                    (qr, SObject [])] |}.
+
+Example C16_example_list_method :
+  exists ms ks, cr_client (run_chain current_config (compile_image ex_snake ex_list_pkg)) = Ok (ms, ks)
+    /\ map (fun m => option_map (map (fun x => dotted (fst x))) (cm_list m)) ms = [Some [bytes_of "flag"; bytes_of "next"]]
+    /\ cr_swagger (run_chain current_config (compile_image ex_snake ex_list_pkg)) = Ok tt.
+Proof. eexists. eexists. split; [vm_compute; reflexivity|]. split; vm_compute; reflexivity. Qed.
 
 Example C16_example_strcase :
   all_lower_camel [bytes_of "barId"; bytes_of "accountRef"]
